@@ -170,7 +170,7 @@ func init() {
 			n := e.ConcInt(s.Len)
 			r := sym.Bool(true)
 			for i := 0; i < n; i++ {
-				r = sym.And(r, sym.Not(sym.Eq(s.St.peek(s.Off+i).(sym.Sc), sym.Const(8, 0))))
+				r = sym.And(r, sym.Not(sym.Eq(s.St.peek(e.o(s)+i).(sym.Sc), sym.Const(8, 0))))
 			}
 			return e.norm(r)
 		},
@@ -201,6 +201,17 @@ func init() {
 			x, y := a[0].(Slice), a[1].(Slice)
 			return sym.Bool(x.St != nil && x.St == y.St)
 		},
+		"vDelta": func(e *Exec, c *frame, fn *ssa.Function, a []Value) Value {
+			x, y := a[0].(Slice), a[1].(Slice)
+			ox, oy := x.Off, y.Off
+			if ox.W == 0 {
+				ox = i64zero
+			}
+			if oy.W == 0 {
+				oy = i64zero
+			}
+			return sym.Sub(oy, ox)
+		},
 		"vAliasBytes": func(e *Exec, c *frame, fn *ssa.Function, a []Value) Value {
 			// do two byte views share any cell?
 			x, y := a[0].(Slice), a[1].(Slice)
@@ -208,7 +219,7 @@ func init() {
 				return sym.Bool(false)
 			}
 			nx, ny := e.ConcInt(x.Len), e.ConcInt(y.Len)
-			return sym.Bool(x.Off < y.Off+ny && y.Off < x.Off+nx)
+			return sym.Bool(e.o(x) < e.o(y)+ny && e.o(y) < e.o(x)+nx)
 		},
 		"vAllocLimit": func(e *Exec, c *frame, fn *ssa.Function, a []Value) Value {
 			// arm the allocation-size obligation (C04): every make executed from
@@ -444,7 +455,7 @@ func modelIndexByte(e *Exec, c *frame, fn *ssa.Function, a []Value) Value {
 	b := a[1].(sym.Sc)
 	n := e.ConcInt(s.Len)
 	for i := 0; i < n; i++ {
-		if e.Branch(sym.Eq(s.St.peek(s.Off+i).(sym.Sc), b)) {
+		if e.Branch(sym.Eq(s.St.peek(e.o(s)+i).(sym.Sc), b)) {
 			return i64(i)
 		}
 	}
@@ -465,16 +476,16 @@ func modelTrimSpace(e *Exec, c *frame, fn *ssa.Function, a []Value) Value {
 		return e.norm(r)
 	}
 	lo, hi := 0, n
-	for lo < hi && e.Branch(isSpace(s.St.peek(s.Off+lo).(sym.Sc))) {
+	for lo < hi && e.Branch(isSpace(s.St.peek(e.o(s)+lo).(sym.Sc))) {
 		lo++
 	}
-	for hi > lo && e.Branch(isSpace(s.St.peek(s.Off+hi-1).(sym.Sc))) {
+	for hi > lo && e.Branch(isSpace(s.St.peek(e.o(s)+hi-1).(sym.Sc))) {
 		hi--
 	}
 	if lo == hi {
 		return Slice{Len: i64zero, Cap: i64zero}
 	}
-	return Slice{St: s.St, Off: s.Off + lo, Len: i64(hi - lo), Cap: i64(hi - lo)}
+	return Slice{St: s.St, Off: i64(e.o(s) + lo), Len: i64(hi - lo), Cap: i64(hi - lo)}
 }
 
 func modelItoa(e *Exec, c *frame, fn *ssa.Function, a []Value) Value {
@@ -523,7 +534,7 @@ func modelAtoi(e *Exec, c *frame, fn *ssa.Function, a []Value) Value {
 	}
 	i := 0
 	neg := false
-	first := s.St.peek(s.Off).(sym.Sc)
+	first := s.St.peek(e.o(s)).(sym.Sc)
 	if e.Branch(sym.Eq(first, sym.Const(8, '-'))) {
 		neg, i = true, 1
 	} else if e.Branch(sym.Eq(first, sym.Const(8, '+'))) {
@@ -535,7 +546,7 @@ func modelAtoi(e *Exec, c *frame, fn *ssa.Function, a []Value) Value {
 	if n-i > 18 {
 		// all digits? then saturate
 		for j := i; j < n; j++ {
-			b := s.St.peek(s.Off + j).(sym.Sc)
+			b := s.St.peek(e.o(s) + j).(sym.Sc)
 			if !e.Branch(sym.And(sym.Ule(sym.Const(8, '0'), b), sym.Ule(b, sym.Const(8, '9')))) {
 				return Tuple{i64zero, synErr}
 			}
@@ -551,7 +562,7 @@ func modelAtoi(e *Exec, c *frame, fn *ssa.Function, a []Value) Value {
 	}
 	acc := i64zero
 	for j := i; j < n; j++ {
-		b := s.St.peek(s.Off + j).(sym.Sc)
+		b := s.St.peek(e.o(s) + j).(sym.Sc)
 		if !e.Branch(sym.And(sym.Ule(sym.Const(8, '0'), b), sym.Ule(b, sym.Const(8, '9')))) {
 			return Tuple{i64zero, synErr}
 		}
@@ -688,7 +699,7 @@ func (e *Exec) variadic(v Value) []Value {
 	n := e.ConcInt(s.Len)
 	out := make([]Value, n)
 	for i := range out {
-		out[i] = s.St.peek(s.Off + i)
+		out[i] = s.St.peek(e.o(s) + i)
 	}
 	return out
 }
